@@ -214,10 +214,14 @@ class _Lagrangian:
         redY_unique = np.unique(redY)
 
         estimator = None
+        fit_params = {self.sample_weight_name: redW}
         if len(redY_unique) == 1:
             logger.debug("redY had single value. Using DummyClassifier")
             estimator = DummyClassifier(strategy="constant", constant=redY_unique[0])
             self.n_oracle_calls_dummy_returned += 1
+            # a constant classifier does not depend on the weights, which are all zero
+            # (0/0 after the normalisation above) when every signed weight vanishes
+            fit_params = {}
         else:
             # use sklearn.base.clone to clone the estimator.
             # It is the same as copy.deepcopy for non-sklearn estimators (By using safe=False).
@@ -227,7 +231,7 @@ class _Lagrangian:
             estimator = clone(estimator=self.estimator, safe=False)
 
         oracle_call_start_time = time()
-        estimator.fit(self.constraints.X, redY, **{self.sample_weight_name: redW})
+        estimator.fit(self.constraints.X, redY, **fit_params)
         self.oracle_execution_times.append(time() - oracle_call_start_time)
         self.n_oracle_calls += 1
 
